@@ -16,15 +16,21 @@ LEVEL_TEXT = ("Coq theorems over the SMTP session model for every configuration 
 LEVEL_NOTE = ("Coq kernel; extraction; the MAIL patterns (as RE2 programs), the address parser and the policy are modelled and cross-checked per case; net.ParseIP and enmime header decoding are oracles; read "
               "deadlines are modelled as scripted events (a read times out exactly where the client pauses; what bufio/textproto make of a "
               "pending error with a partial line buffered is transcribed and validated by the correspondence run), not as clocks: the single "
-              "deadline readDataBlock sets for a whole block, write deadlines and write failures are not modelled; TLS is not modelled (disabled); panics inside third-party parsers are searched for by the garbage "
-              "stream, not proved absent")
+              "deadline readDataBlock sets for a whole block and write deadlines are not modelled; write failures are (run_net_w: the server's writes fail "
+              "after k reply lines - write_failure_store_is_entitled, write_failure_is_cut, write_failure_replies_prefix); the TLS record layer is not modelled: "
+              "the asmtls stream runs the dialogues through a real TLS listener (SMTP_FORCETLS) and the model treats TLS as transparent; the accept loops are modelled "
+              "under C19 (LifecycleAccept), here the asmtls stream checks that peers which connect and stay silent do not keep another client from being served; "
+              "panics inside third-party parsers are searched for by the garbage stream, not proved absent")
 DESIGN_REF = "DESIGN.md §4 C03"
 RULE = ("(a) dialogues with 35% garbage/out-of-order lines between steps (mixed case, short, unknown, unimplemented, AUTH PLAIN/LOGIN "
         "sub-dialogues, the two Unicode case folds, binary), SIZE parameters; (b) every byte prefix of valid dialogues; (c) scripted connections: 1-3 pauses at random offsets (line boundaries, inside a "
         "line, inside a DATA block) ended by EOF / silence / a read error, and one pause at every byte offset of valid dialogues; "
+        "(d) the server's writes failing after k reply lines, every k for valid dialogues; (e) smtppar: sessions that overlap, the first held inside Deliver "
+        "while the others run; (f) asmtls: the assembled server (config.Process, FullAssembly, Services.Start) on a TLS-from-the-first-byte SMTP listener with a "
+        "run-time certificate, 1-3 silent peers connected first, the dialogue played by a real TLS client and the result read back through the REST API; "
         "distinct = distinct input line; non-trivial = something stored or some 5xx reply")
 TRUSTED = ["net.ParseIP verdicts and enmime header facts (From/To/Subject, parse error) are oracles supplied by the driver from the real functions",
            "an in-memory half-closeable connection (go/smtpd/bufconn.go) stands for TCP: the client writes, half-closes (or pauses / stays silent / breaks as scripted) and reads every reply"]
-ASSUMPTIONS = ["store operations do not fail", "writes to the client do not fail"]
+ASSUMPTIONS = ["store operations do not fail"]
 NOT_PROVED = []
 EXEC_TIMEOUT = {"quick": 900, "thorough": 14400}
